@@ -551,7 +551,11 @@ func c19Gen(t *rapid.T) C19Case {
 	// A burst at one instant: the same record twice with another one between them (a retry, a
 	// message, the retry again - a log rotated in mid-write). Equal records are told apart by
 	// how often they occur, not at all by a filter.
-	if len(c.Recs) > 0 && rapid.IntRange(0, 4).Draw(t, "burst-at-one-instant") == 0 {
+	rewrites := false // a stage that rewrites lines may make different records of one instant look alike
+	for _, st := range c.Q.Stages {
+		rewrites = rewrites || st.Kind == "unpack" || st.Kind == "line_format" || st.Kind == "decolorize"
+	}
+	if len(c.Recs) > 0 && !rewrites && rapid.IntRange(0, 4).Draw(t, "burst-at-one-instant") == 0 {
 		a := c.Recs[rapid.IntRange(0, len(c.Recs)-1).Draw(t, "burst-a")]
 		b := c.Recs[rapid.IntRange(0, len(c.Recs)-1).Draw(t, "burst-b")]
 		ts := c.Recs[len(c.Recs)-1].TS + 1e9
